@@ -609,12 +609,21 @@ func (ff *FnFacts) outToward(p, s *ssa.BasicBlock, pin FactSet) FactSet {
 // WalkFeasible explores the blocks reachable from the last block of prefix along live edges that skip does not veto
 // and that the way of arrival allows (see PathFeasible); it returns true as soon as hit accepts a block.
 func (ff *FnFacts) WalkFeasible(prefix []*ssa.BasicBlock, skip func(a, b *ssa.BasicBlock) bool, hit func(b *ssa.BasicBlock) bool) bool {
+	var sp func(path []*ssa.BasicBlock, next *ssa.BasicBlock) bool
+	if skip != nil {
+		sp = func(path []*ssa.BasicBlock, next *ssa.BasicBlock) bool { return skip(path[len(path)-1], next) }
+	}
+	return ff.WalkFeasiblePath(prefix, sp, hit)
+}
+
+// WalkFeasiblePath is WalkFeasible with a veto that sees the way of arrival.
+func (ff *FnFacts) WalkFeasiblePath(prefix []*ssa.BasicBlock, skip func(path []*ssa.BasicBlock, next *ssa.BasicBlock) bool, hit func(b *ssa.BasicBlock) bool) bool {
 	seen := map[[3]*ssa.BasicBlock]bool{}
 	var dfs func(path []*ssa.BasicBlock) bool
 	dfs = func(path []*ssa.BasicBlock) bool {
 		x := path[len(path)-1]
 		for _, s := range x.Succs {
-			if !ff.IsLiveEdge(x, s) || (skip != nil && skip(x, s)) || !ff.PathFeasible(path, s) {
+			if !ff.IsLiveEdge(x, s) || (skip != nil && skip(path, s)) || !ff.PathFeasible(path, s) {
 				continue
 			}
 			if hit(s) {
@@ -646,26 +655,25 @@ func predIndex(b, pred *ssa.BasicBlock) int {
 	return -1
 }
 
-// PathFeasible: can control, having run through path, continue to next? False only when the last block of the path
-// tests a phi and the operand selected by the path cannot make the test come out that way.
-func (ff *FnFacts) PathFeasible(path []*ssa.BasicBlock, next *ssa.BasicBlock) bool {
+// pathOperand: the operand the phi tested at the end of path has when control arrived along path, and the facts at
+// the edge where that operand entered (ok=false: the path does not determine it).
+func (ff *FnFacts) pathOperand(path []*ssa.BasicBlock) (pt *phiTest, v ssa.Value, facts FactSet, ok bool) {
 	if len(path) < 2 {
-		return true
+		return nil, nil, nil, false
 	}
 	p := path[len(path)-1]
-	pt := ff.tests[p]
+	pt = ff.tests[p]
 	if pt == nil || len(p.Succs) != 2 || p.Succs[0] == p.Succs[1] {
-		return true
+		return nil, nil, nil, false
 	}
-	truth := next == p.Succs[0]
 	// the path must end with the chain join ... test block
 	k := len(path) - len(pt.chain)
 	if k < 1 {
-		return true
+		return nil, nil, nil, false
 	}
 	for i, cb := range pt.chain {
 		if path[k+i] != cb {
-			return true
+			return nil, nil, nil, false
 		}
 	}
 	join := pt.chain[0]
@@ -673,13 +681,13 @@ func (ff *FnFacts) PathFeasible(path []*ssa.BasicBlock, next *ssa.BasicBlock) bo
 	k--
 	i := predIndex(join, q)
 	if i < 0 {
-		return true
+		return nil, nil, nil, false
 	}
-	v := pt.phi.Edges[i]
+	v = pt.phi.Edges[i]
 	enter := [2]*ssa.BasicBlock{q, join}
 	for k > 0 {
-		vp, ok := v.(*ssa.Phi)
-		if !ok || vp.Block() != q {
+		vp, isPhi := v.(*ssa.Phi)
+		if !isPhi || vp.Block() != q {
 			break
 		}
 		r := path[k-1]
@@ -692,11 +700,59 @@ func (ff *FnFacts) PathFeasible(path []*ssa.BasicBlock, next *ssa.BasicBlock) bo
 		q = r
 		k--
 	}
-	facts := ff.edgeOut[enter]
+	facts = ff.edgeOut[enter]
 	if facts == nil {
 		facts = FactSet{}
 	}
-	return ff.compatible(pt, v, truth, facts)
+	return pt, v, facts, true
+}
+
+// PathFeasible: can control, having run through path, continue to next? False only when the last block of the path
+// tests a phi and the operand selected by the path cannot make the test come out that way.
+func (ff *FnFacts) PathFeasible(path []*ssa.BasicBlock, next *ssa.BasicBlock) bool {
+	pt, v, facts, ok := ff.pathOperand(path)
+	if !ok {
+		return true
+	}
+	p := path[len(path)-1]
+	return ff.compatible(pt, v, next == p.Succs[0], facts)
+}
+
+// PathTestFacts: what crossing the test at the end of path toward next says about the operand the path selected
+// (e.g. `ready := force || n >= max; if !ready {return}`: past the test on the way through the right operand,
+// n >= max holds).
+func (ff *FnFacts) PathTestFacts(path []*ssa.BasicBlock, next *ssa.BasicBlock) []Fact {
+	pt, v, _, ok := ff.pathOperand(path)
+	if !ok {
+		return nil
+	}
+	if _, isPhi := v.(*ssa.Phi); isPhi {
+		return nil
+	}
+	p := path[len(path)-1]
+	truth := next == p.Succs[0]
+	switch {
+	case pt.isBool:
+		if _, isC := v.(*ssa.Const); isC {
+			return nil
+		}
+		return ff.condFacts(v, truth == pt.neqOnTrue, p)
+	case pt.k != nil:
+		op := "=="
+		if truth == pt.neqOnTrue {
+			op = "!="
+		}
+		return []Fact{normCmp(ff.TB.Of(v), op, ff.TB.Of(pt.k))}
+	case isNilConst(v):
+		return nil
+	case isErrorType(v.Type()):
+		return ff.errFacts(v, truth != pt.neqOnTrue)
+	}
+	op := "=="
+	if truth == pt.neqOnTrue {
+		op = "!="
+	}
+	return []Fact{{Kind: "cmp", Op: op, A: ff.TB.Of(v), B: &Term{Op: "const", Name: "nil"}}}
 }
 
 // dataflow: edge facts and the forward must dataflow.
